@@ -3,11 +3,12 @@
 P=$1; shift; EXTRA="$@"
 export MUT_DIR=${MUT_DIR:-/tmp/mut-lead}
 cd /verif
+TAG=s; [ -d /tmp/seed/$P/seed_r1 ] && TAG=r2s
 for n in 1 2; do
   [ -d /tmp/seed/$P/seed/$n ] || continue
-  if [ ! -d seeded/$P-s$n ]; then tools/import_seed.sh $P $n | tail -1; fi
-  [ -d seeded/$P-s$n ] || { echo "$P-s$n not confirmed"; continue; }
-  R=$(python3 tools/mutcheck.py seeded/$P-s$n/patch.diff $P $EXTRA 2>&1 | tail -1)
-  echo "$P-s$n $R"
-  echo -e "$(date +%H:%M)\t$P-s$n\t$R" >> seeded/RESULTS.tsv
+  if [ ! -d seeded/$P-$TAG$n ]; then tools/import_seed.sh $P $n | tail -1; fi
+  [ -d seeded/$P-$TAG$n ] || { echo "$P-$TAG$n not confirmed"; continue; }
+  R=$(python3 tools/mutcheck.py seeded/$P-$TAG$n/patch.diff $P $EXTRA 2>&1 | tail -1)
+  echo "$P-$TAG$n $R"
+  echo -e "$(date +%H:%M)\t$P-$TAG$n\t$R" >> seeded/RESULTS.tsv
 done
